@@ -1790,29 +1790,50 @@ func (c *Ctx) rulesR3batch3(only string) {
 				for _, b := range f.Blocks {
 					for _, ins := range b.Instrs {
 						bo, ok := ins.(*ssa.BinOp)
-						if !ok || bo.Op != token.LSS || loadOfField(bo.Y) != fMax {
-							continue
-						}
-						ph, ok := bo.X.(*ssa.Phi)
 						if !ok {
 							continue
 						}
+						var other ssa.Value
+						switch bo.Op {
+						case token.LSS, token.GTR, token.LEQ, token.GEQ:
+							if loadOfField(bo.Y) == fMax {
+								other = bo.X
+							} else if loadOfField(bo.X) == fMax {
+								other = bo.Y
+							}
+						}
+						if other == nil {
+							continue
+						}
 						n++
-						fromLen := false
-						for _, e := range ph.Edges {
+						isLen := func(e ssa.Value) bool {
 							if call, ok := e.(*ssa.Call); ok {
 								if bi, ok := call.Call.Value.(*ssa.Builtin); ok && bi.Name() == "len" {
+									return true
+								}
+							}
+							return false
+						}
+						fromLen := isLen(other)
+						start := other
+						if ph, ok := other.(*ssa.Phi); ok {
+							start = ph.Edges[0]
+							for _, e := range ph.Edges {
+								if isLen(e) {
 									fromLen = true
 								}
 							}
 						}
-						c.check(fromLen, "C15.loopmax", fmt.Sprintf("NormalizingPoolState: counter#%d compared with Max starts at the existing worker count", n), ins.Pos(), "the counter compared with Max starts at "+render(ph.Edges[0])+", not at len(existing workers)")
+						if b2, ok := other.(*ssa.BinOp); ok && b2.Op == token.ADD && (isLen(b2.X) || isLen(b2.Y)) {
+							fromLen = true
+						}
+						c.check(fromLen, "C15.loopmax", fmt.Sprintf("NormalizingPoolState: counter#%d compared with Max starts at the existing worker count", n), ins.Pos(), "the value compared with Max is "+render(start)+", which does not count up from len(existing workers)")
 					}
 				}
 			}
 			visit(np)
 			if n < 1 {
-				c.undecided("C15.loopmax: no loop counter compared with Supervisor.Max in NormalizingPoolState")
+				c.fail("C15.loopmax", "NormalizingPoolState: the fork loop is bounded by Max", np.Pos(), "no counter is compared with Supervisor.Max in NormalizingPoolState: nothing keeps existing+forked workers within Max")
 			}
 		}
 		{
